@@ -203,6 +203,12 @@ def _modify(self, op):
             if p is None or self._is_seed(p):
                 self.seed_deleted.add('%s[%s]' % (w.objs[v].ent, ','.join(map(repr, self._flat_pk(v)))))
                 self.c('seed_deletions')
+                if self.force_load == 'targeted':
+                    try:
+                        if p is None: p = self.obj(v, via=0)
+                        p.load(); self.c('targeted_loads')
+                    except HarnessSkip: pass
+                    except Exception as e: self.c('targeted_load_raised.' + type(e).__name__)
     self.last_model ={'cascade_cycle': bool(m2.cascade_revisit), 'refusal': refuse.kind if refuse else None}
     before = self.snapshot() if self.snapshots else None
     mark = self.rec.mark()
@@ -325,6 +331,11 @@ def _note_seed_reassign(self, op):
             if attr is not None and attr not in p._vals_ and p._status_ != 'created':
                 self.seed_reassigned.add((oid, an))
                 self.c('seed_reassignments')
+                if self.force_load == 'targeted':
+                    # deviation replay for the known finding: the trigger (reference not loaded when reassigned) is
+                    # removed, nothing else changes
+                    try: getattr(p, an); self.c('targeted_loads')      # loads the row, or the lazy reference itself
+                    except Exception as e: self.c('targeted_load_raised.' + type(e).__name__)
     except Exception as e:
         self.c('note_seed_error.' + type(e).__name__)
 
@@ -384,6 +395,13 @@ def _learn_auto_pks(self, strict=True):
 def _tx(self, op):
     kind = op['op']
     orm = self.orm
+    if kind == 'obtain':
+        # the program fetches some objects ahead of use (e.g. at the start of the session)
+        for oid in op['oids']:
+            if oid in self.working.objs:
+                try: self.obj(oid, via=op.get('via'))
+                except HarnessSkip: pass
+        return 'ok'
     if kind in ('flush', 'commit', 'end'):
         dups = self.working.dups()
         cycle = self._fk_cycle()
@@ -976,9 +994,10 @@ def random_history(eng, rng, n_ops, weights=None, invalid_rate=0.15, stale_rate=
 
 # ---------------------------------------------------------------------------
 # shrinking: greedy removal of operations while the same (monitor, kind) report persists
-def replay_ops(spec, ops, workdir, name='replay', stop_on_taint=None, **engine_kw):
+def replay_ops(spec, ops, workdir, name='replay', stop_on_taint=None, post=None, **engine_kw):
     eng = Engine(spec, workdir, name=name, **engine_kw)
     if stop_on_taint is not None: eng.stop_on_taint = stop_on_taint
+    if post is not None: post(eng)      # the original engine's configuration (loading strategy, handle mode)
     try:
         run_history(eng, ops)
     except Exception as e:
